@@ -172,6 +172,18 @@ func (f *c17Folder) fold(s *gen.Stream, depth int) {
 		if reservedStart && (i+1 >= len(s.Toks) || !foldable(s.Toks[i+1])) {
 			continue
 		}
+		if !reservedStart && rapid.IntRange(0, 11).Draw(f.rt, "empty_alias") == 0 {
+			// an alias whose value holds no token at all in front of the command
+			// name: the replacement leaves nothing, and the name is still the
+			// first word of the command
+			an := f.fresh()
+			f.aliases[an] = rapid.SampledFrom([]string{"", "", " ", "\t "}).Draw(f.rt, "empty_value")
+			nt := &gen.Tok{Kind: gen.KWord, Pieces: []gen.Piece{{Text: an}}, CmdPos: true, Depth: t.Depth}
+			s.Toks = append(s.Toks[:i:i], append([]*gen.Tok{nt}, s.Toks[i:]...)...)
+			f.stats["alias_with_empty_value"]++
+			i++
+			continue
+		}
 		if rapid.IntRange(0, 2).Draw(f.rt, "fold") != 0 {
 			continue
 		}
@@ -250,6 +262,17 @@ func (f *c17Folder) fold(s *gen.Stream, depth int) {
 				s.Toks[j] = &gen.Tok{Kind: gen.KWord, Pieces: []gen.Piece{{Text: bn}}}
 				blank = true
 				f.stats["via_trailing_blank"]++
+			}
+		}
+		if !blank && j < len(s.Toks) && s.Toks[j].Kind == gen.KIONum && rapid.IntRange(0, 1).Draw(f.rt, "blank_before_ionumber") == 0 {
+			// a trailing blank in front of the number of a redirection: that is
+			// no word, whatever the table says about its digits
+			if num := s.Toks[j].FlatText(); !f.used[num] {
+				if _, defined := f.aliases[num]; !defined {
+					f.aliases[num] = "MUST_NOT_APPEAR ;; ("
+				}
+				blank = true
+				f.stats["trailing_blank_before_io_number"]++
 			}
 		}
 		if !blank && !f.reservedSpellingsAsWords && j < len(s.Toks) && s.Toks[j].Kind == gen.KReserved && rapid.IntRange(0, 2).Draw(f.rt, "blank_before_reserved") == 0 {
@@ -578,6 +601,44 @@ func TestC17(t *testing.T) {
 			}
 		}
 		st.Note("%d compound commands as alias values (ending in a blank, a tab, two blanks or nothing; directly and through an alias that names them) x %d frames in which a reserved word follows directly (then do fi else elif done } esac), with an alias defined for every reserved word", len(compounds), len(frames))
+	}
+
+	// an alias whose value begins with a reserved word, as the command name
+	// behind an assignment or a redirection: there the reserved word is an
+	// ordinary word, with or without the alias (and at the beginning of a
+	// command it is the reserved word, with or without it)
+	{
+		frames := []struct{ pre, word, post string }{
+			{"if a; then ", "fi", ""}, {"while ", "do", " c; done"}, {"{ ", "}", ""}, {"if ", "then", " c; fi"},
+			{"for i in x; do ", "done", ""}, {"case x in a) ", "esac", ""}, {"if a; then b; ", "else", " c; fi"},
+			{"if a; then b; ", "elif", " c; then d; fi"}, {"", "if", " a; then b; fi"}, {"", "!", " a"}, {"", "{", " a; }"},
+			{"until ", "do", " c; done"}, {"", "while", " a; do b; done"}, {"", "for", " i in x; do b; done"}, {"", "case", " x in a) b;; esac"},
+		}
+		k := 0
+		for _, fr := range frames {
+			for _, prefix := range []string{"b=1 ", ">f ", "b=1 <f c=2 ", "2>&1 ", "c; ", "c && ", ""} {
+				for vi, value := range []string{"%s", "%s ", "%s\t", "inner"} {
+					k++
+					if k%nsh != shFwd {
+						continue
+					}
+					if prefix == "" && fr.pre == "" {
+						continue
+					}
+					al := map[string]string{"AL": strings.Replace(value, "%s", fr.word, 1)}
+					if vi == 3 {
+						al["inner"] = fr.word
+					}
+					fc := c17Fwd{Src: fr.pre + prefix + "AL" + fr.post + "\n", Aliases: al, Unfolded: fr.pre + prefix + fr.word + fr.post + "\n"}
+					if err := checkC17Fwd(fc); err != nil {
+						fail(t, "C17", "forward", fc, "%v", err)
+					}
+					st.EvalN(1, 1)
+					st.Class("alias_value_beginning_with_a_reserved_word_behind_a_prefix")
+				}
+			}
+		}
+		st.Note("%d frames x 7 command beginnings (assignments, redirections, both, a separator, nothing) x 4 values: an alias whose value is a reserved word, as command name behind a prefix (an ordinary word there) and at the beginning of a command (the reserved word)", len(frames))
 	}
 
 	// an alias that only names another alias
